@@ -587,6 +587,94 @@ fn server_shutdown(seed: u64) {
         }
         drop(kv);
     }
+    // variant C: as the server binary does it -- the server runs on a runtime of its own, and the moment Server::run returns the
+    // store is closed and that runtime is dropped (which cancels whatever task is still alive).  run() must therefore return
+    // only after every handler has ended: a slow SET in flight at the signal still gets its +OK and is in the store, and a large
+    // reply in flight is delivered whole.
+    {
+        #[derive(Clone)]
+        struct Slow(bitcask::storage::bitcask::Handle);
+        impl KeyValueStorage for Slow {
+            type Error = bitcask::storage::bitcask::Error;
+            fn set(&self, key: bytes::Bytes, value: bytes::Bytes) -> Result<(), Self::Error> { std::thread::sleep(std::time::Duration::from_millis(700)); self.0.set(key, value) }
+            fn get(&self, key: bytes::Bytes) -> Result<Option<bytes::Bytes>, Self::Error> { self.0.get(key) }
+            fn del(&self, key: bytes::Bytes) -> Result<bool, Self::Error> { self.0.del(key) }
+        }
+        for which in 0..2u64 {
+            rounds += 1;
+            let dir = tempfile::tempdir().unwrap();
+            let dpath = dir.path().to_path_buf();
+            let port = { let l = std::net::TcpListener::bind("127.0.0.1:0").unwrap(); l.local_addr().unwrap().port() };
+            let (stop_tx, stop_rx) = tokio::sync::oneshot::channel::<()>();
+            let (ready_tx, ready_rx) = std::sync::mpsc::channel::<Result<(), String>>();
+            let big = vec![b'y'; (10 << 20) + next(1000) as usize];
+            let big2 = big.clone();
+            let server_thread = std::thread::spawn(move || {
+                let srt = tokio::runtime::Builder::new_multi_thread().worker_threads(2).enable_all().build().unwrap();
+                let mut c = SConf::default();
+                c.path(&dpath).concurrency(2).max_file_size(1 << 28).sync(SyncStrategy::None).merge_check_interval_ms(1_000_000_000).merge_check_jitter(0.0);
+                let kv = c.open().unwrap();
+                if which == 1 { kv.get_handle().set(bytes::Bytes::from_static(b"big"), bytes::Bytes::from(big2)).unwrap(); }
+                let mut nc = bitcask::net::Config::default();
+                nc.host = "127.0.0.1".parse().unwrap(); nc.port = port;
+                if which == 0 {
+                    let handle = Slow(kv.get_handle());
+                    srt.block_on(async move {
+                        match nc.async_server(handle, async { let _ = stop_rx.await; }).await { Ok(server) => { let _ = ready_tx.send(Ok(())); server.run().await; } Err(e) => { let _ = ready_tx.send(Err(e.to_string())); } } });
+                } else {
+                    let handle = kv.get_handle();
+                    srt.block_on(async move {
+                        match nc.async_server(handle, async { let _ = stop_rx.await; }).await { Ok(server) => { let _ = ready_tx.send(Ok(())); server.run().await; } Err(e) => { let _ = ready_tx.send(Err(e.to_string())); } } });
+                }
+                // what `main` of the server binary does when run() has returned
+                drop(kv);
+                drop(srt);
+            });
+            match ready_rx.recv_timeout(std::time::Duration::from_secs(20)) { Ok(Ok(())) => {}, other => { eprintln!("server-shutdown: variant C: server start: {:?}", other); std::process::exit(3); } }
+            let reply_len = format!("${}\r\n", big.len()).len() + big.len() + 2;
+            let got: Result<Vec<u8>, String> = rt.block_on(async {
+                let mut s = tokio::net::TcpStream::connect(("127.0.0.1", port)).await.map_err(|e| format!("connect: {}", e))?;
+                let mut got = Vec::new();
+                let mut buf = vec![0u8; 65536];
+                if which == 0 {
+                    s.write_all(&req(&[b"SET", b"slow", b"v"])).await.map_err(|e| e.to_string())?;
+                    tokio::time::sleep(std::time::Duration::from_millis(150)).await;      // the SET is being executed (700 ms)
+                    let _ = stop_tx.send(());
+                } else {
+                    s.write_all(&req(&[b"GET", b"big"])).await.map_err(|e| e.to_string())?;
+                    // read the beginning of the reply, then pause: the handler is suspended inside write_frame when the signal fires
+                    while got.len() < 1000 { match tokio::time::timeout(std::time::Duration::from_secs(20), s.read(&mut buf[..1000 - got.len()])).await { Ok(Ok(0)) | Ok(Err(_)) => break, Ok(Ok(k)) => got.extend(&buf[..k]), Err(_) => return Err("no reply to GET within 20 s".to_string()) } }
+                    tokio::time::sleep(std::time::Duration::from_millis(150)).await;
+                    let _ = stop_tx.send(());
+                    tokio::time::sleep(std::time::Duration::from_millis(300)).await;
+                }
+                loop { match tokio::time::timeout(std::time::Duration::from_secs(20), s.read(&mut buf)).await { Ok(Ok(0)) => break, Ok(Ok(k)) => got.extend(&buf[..k]), Ok(Err(_)) => break, Err(_) => return Err("the server did not close the connection within 20 s after the signal".to_string()) } }
+                Ok(got)
+            });
+            let joined = { let t0 = std::time::Instant::now(); while !server_thread.is_finished() && t0.elapsed() < std::time::Duration::from_secs(20) { std::thread::sleep(std::time::Duration::from_millis(20)); } server_thread.is_finished() };
+            let hist = if which == 0 { format!("seed {} round C0: the server runs as in the binary (store closed and runtime dropped as soon as Server::run returns); SET slow v on an engine whose set takes 700 ms; the shutdown signal fires 150 ms after the request", seed) }
+                       else { format!("seed {} round C1: the server runs as in the binary (store closed and runtime dropped as soon as Server::run returns); GET big (a {} byte value); the client reads 1000 bytes, pauses, the shutdown signal fires, 300 ms later the client drains the stream", seed, big.len()) };
+            let fail = |obs: String, exp: &str| -> ! { println!("{{\"found\": true, \"kind\": \"shutdown\", \"props\": \"C16\", \"history\": {}, \"observed\": {}, \"expected\": {}}}", js(&hist), js(&obs), js(exp)); std::process::exit(0) };
+            if !joined { fail("Server::run had not returned 20 s after the signal although the only client had been answered and closed".into(), "run() returns once every handler has ended"); }
+            let _ = server_thread.join();
+            match got {
+                Err(e) => fail(e, "the connection ends"),
+                Ok(g) => {
+                    if which == 0 {
+                        if g != b"+OK\r\n" { fail(format!("the client received {:?} for the SET that was being executed when the signal fired", String::from_utf8_lossy(&g)), "+OK: a command in flight is finished before Server::run returns"); }
+                        std::thread::sleep(std::time::Duration::from_millis(30));
+                        let mut c2 = SConf::default();
+                        c2.path(dir.path()).concurrency(2).max_file_size(1 << 28).sync(SyncStrategy::None).merge_check_interval_ms(1_000_000_000).merge_check_jitter(0.0);
+                        let kv2 = c2.open().unwrap();
+                        let v = kv2.get_handle().get(bytes::Bytes::from_static(b"slow")).ok().flatten();
+                        if v.as_deref() != Some(&b"v"[..]) { fail(format!("+OK was received but `slow` reads {:?} after the shutdown", v), "the acknowledged SET is in the store"); }
+                    } else if g.len() != reply_len || g[g.len() - 2..] != b"\r\n"[..] {
+                        fail(format!("the client received {} bytes of a {} byte reply, then end of stream", g.len(), reply_len), "the whole reply: a reply in flight is finished before Server::run returns");
+                    }
+                }
+            }
+        }
+    }
     // variant B: an engine whose writes are slow and fail for some keys (a wrapper around the real Handle): a SET / DEL whose engine
     // call fails must never be answered with a success reply, whenever the signal fires
     {
@@ -690,7 +778,7 @@ fn server_shutdown(seed: u64) {
             }
         }
     }
-    println!("{{\"found\": false, \"evaluations\": {}, \"searched\": \"{} connections with 200 pipelined SETs each, shutdown signal at a pseudo-random moment; received bytes must be whole replies, acknowledged SETs must be stored\"}}", rounds, rounds);
+    println!("{{\"found\": false, \"evaluations\": {}, \"searched\": \"{} connections: 8 with 200 pipelined SETs each and the shutdown signal at a pseudo-random moment, 2 with a 12 MiB reply in flight and a slow reader, 2 on an engine whose call fails, 2 with the server run as in the binary (store closed and runtime dropped the moment Server::run returns; a slow SET / a 10 MiB reply in flight); received bytes must be whole replies, acknowledged SETs must be stored, a failed call is never acknowledged\"}}", rounds, rounds);
 }
 // ---------------------------------------------------------------------------------------------------
 // C06, client side (bounded): the crate's own Client against (a) the real Server on the real engine, compared with a map model,
@@ -985,10 +1073,16 @@ mod store {
         use std::sync::atomic::{AtomicBool, AtomicI64, AtomicU64, Ordering::SeqCst};
         use std::sync::Arc;
         let dir = tempfile::tempdir().unwrap();
-        let mut c = conf(dir.path(), 200);
-        c.concurrency(3).merge_threshold_small_file(u64::MAX).merge_threshold_dead_bytes(0).merge_threshold_fragmentation(0.0);
+        let mut c = conf(dir.path(), if seed % 2 == 1 { 1_000_000 } else { 200 });
+        // odd seeds: far more reader threads than cores, large files, writers that pause between writes and a merge every 2 ms: every
+        // pass replaces the few files there are, so every reader has to open a new file after every pass and is often preempted
+        // between looking a key up and opening the file it points to
+        let crowded = seed % 2 == 1;
+        let cores = std::thread::available_parallelism().map(|n| n.get()).unwrap_or(4);
+        let nr: usize = if crowded { std::cmp::max(16, 4 * cores) } else { 3 };
+        c.concurrency(if crowded { 8 } else { 3 }).merge_threshold_small_file(u64::MAX).merge_threshold_dead_bytes(0).merge_threshold_fragmentation(0.0);
         let kv = c.open().unwrap();
-        const NW: usize = 3; const KPW: usize = 2; const NR: usize = 3;
+        const NW: usize = 3; const KPW: usize = 2; #[allow(non_snake_case)] let NR: usize = nr;
         // per key: started / completed sequence numbers; value = seq as decimal, seq odd-multiples-of-7 are deletes
         let started: Arc<Vec<AtomicI64>> = Arc::new((0..NW * KPW).map(|_| AtomicI64::new(0)).collect());
         let completed: Arc<Vec<AtomicI64>> = Arc::new((0..NW * KPW).map(|_| AtomicI64::new(0)).collect());
@@ -1005,7 +1099,7 @@ mod store {
                     let key = format!("key{}", k);
                     let r = if is_del(s) { h.del(b(&key)).map(|_| ()) } else { h.set(b(&key), b(&format!("{}", s))) };
                     if let Err(e) = r { *finding.lock().unwrap() = Some((format!("writer {}: op #{} on {} failed: {}", w, s, key, e), "every operation completes".into())); stop.store(true, SeqCst); return; }
-                    co[k].store(s, SeqCst); ops.fetch_add(1, SeqCst); } }));
+                    co[k].store(s, SeqCst); ops.fetch_add(1, SeqCst); if crowded { std::thread::sleep(std::time::Duration::from_micros(200)); } } }));
         }
         for r in 0..NR {
             let h = kv.get_handle(); let (st, co, stop, ops, finding) = (started.clone(), completed.clone(), stop.clone(), ops.clone(), finding.clone());
@@ -1032,8 +1126,8 @@ mod store {
         let mut panicked = false;
         for t in ths { if t.join().is_err() { panicked = true; } }
         let f = finding.lock().unwrap().clone();
-        if panicked && f.is_none() { report("concurrent", "C04", &format!("seed {}: {} writers x {} keys, {} readers, 1 merger, max_file_size 200", seed, NW, KPW, NR), "a thread panicked inside a store operation".into(), "no panic"); }
-        if let Some((obs, exp)) = f { report("concurrent", "C04", &format!("seed {}: {} writers x {} keys, {} readers, 1 merger, max_file_size 200", seed, NW, KPW, NR), obs, &exp); }
+        if panicked && f.is_none() { report("concurrent", "C04", &format!("seed {}: {} writers x {} keys, {} readers, 1 merger, max_file_size {}{}", seed, NW, KPW, NR, if crowded { 1_000_000 } else { 200 }, if crowded { ", writers pause 200 us between writes" } else { "" }), "a thread panicked inside a store operation".into(), "no panic"); }
+        if let Some((obs, exp)) = f { report("concurrent", "C04", &format!("seed {}: {} writers x {} keys, {} readers, 1 merger, max_file_size {}{}", seed, NW, KPW, NR, if crowded { 1_000_000 } else { 200 }, if crowded { ", writers pause 200 us between writes" } else { "" }), obs, &exp); }
         println!("{{\"found\": false, \"evaluations\": {}, \"searched\": \"{} operations by {} writer, {} reader and 1 merging thread in {} ms (single writer per key, reads checked against real-time bounds)\"}}", ops.load(SeqCst), ops.load(SeqCst), NW, NR, millis);
     }
 
